@@ -50,10 +50,35 @@ def cursor_sig(facts, b):
             if dp is not None and dp["l"] == 2 and a["ty"].startswith("&mut"):
                 nm = re.sub(r"^next(_maybe|_ref)?$", "next*", f["name"])
                 sig.add("passes &mut cursor.%s to %s" % (".".join(mirq.field_path(dp)), nm))
+    # locals that are `&mut cursor.<field>` (destructuring `let (iter, offset, last_end) = cursor;`, reborrows)
+    alias = {}
+    changed = True
+    while changed:
+        changed = False
+        for _, bl, s in assigns(b):
+            rv = s["rv"]
+            if s["place"]["p"] or s["place"]["l"] in alias:
+                continue
+            src = None
+            if rv["k"] in ("ref", "rawptr") and rv.get("mut"):
+                src = rv["place"]
+            elif rv["k"] == "use":
+                src = mirq.operand_place(rv["op"])
+                if src is not None and src["l"] == 2:
+                    src = None          # a copy of the cursor reference itself is not an alias of a field
+            if src is None:
+                continue
+            if src["l"] == 2 and "*" in mirq.place_fields(src) and mirq.field_path(src):
+                alias[s["place"]["l"]] = list(mirq.field_path(src)); changed = True
+            elif src["l"] in alias and (rv["k"] == "use" or "*" in mirq.place_fields(src)):
+                alias[s["place"]["l"]] = alias[src["l"]] + list(mirq.field_path(src)); changed = True
     for _, bl, s in assigns(b):
         if s["place"]["l"] == 2 and "*" in mirq.place_fields(s["place"]):
             src = pv.of_rvalue(s["rv"], 0)
             sig.add("writes cursor%s <- %s" % ("".join("." + x for x in mirq.field_path(s["place"])), shape(src)))
+        elif s["place"]["l"] in alias and "*" in mirq.place_fields(s["place"]):
+            src = pv.of_rvalue(s["rv"], 0)
+            sig.add("writes cursor%s <- %s" % ("".join("." + x for x in alias[s["place"]["l"]] + list(mirq.field_path(s["place"]))), shape(src)))
     for c in mirq.closure_bodies(facts, b):
         ups = c.get("upvars") or []
         for k, u in enumerate(ups):
@@ -168,6 +193,18 @@ def rule_reader_sib(facts):
     return r
 
 
+_NORMS = {}
+
+
+def NORM(facts):
+    import nf
+    k = id(facts)
+    if k not in _NORMS:
+        _NORMS.clear()
+        _NORMS[k] = nf.Normalizer(facts)
+    return _NORMS[k]
+
+
 def rule_span_prov(facts):
     """Input::span / span_from / slice / slice_from of every input: start from range.start, end from range.end."""
     r = RuleResult("SPAN-PROV")
@@ -181,16 +218,12 @@ def rule_span_prov(facts):
             continue
         st = b.get("impl_self_adt") or norm_self(b.get("impl_self"))
         key = "%s::%s" % (st, b["name"])
-        # path-sensitive provenance of the returned value, one string per distinct path value
-        vals = set()
+        # path-sensitive provenance of the returned value in normal form (engine/nf.py: Option plumbing, closures and
+        # delegation erased), one alternative-free term per distinct value
         try:
-            ps = mirq.paths(b)
+            vals = set(NORM(facts).value_paths(b))
         except RuntimeError:
-            ps = []
-        for path in ps:
-            pp_ = mirq.PathProv(b, path)
-            pp_.max_depth = 40
-            vals.add(fmt_roots(pp_.of_local(0)))
+            vals = set()
         n += 1
         seen[key] = sorted(vals)
         want = IT.SPAN_PROV.get(key)
@@ -348,9 +381,7 @@ def rule_span_impl(facts):
         is_span_impl = b.get("impl_trait") == "span::Span" or q.startswith("span::Span::")
         if q not in IT.SPAN_IMPL and not is_span_impl:
             continue
-        pv = Prov(b)
-        pv.max_depth = 30
-        got = fmt_roots(pv.of_local(0))
+        got = " | ".join(NORM(facts).value_flow(b))
         seen[q] = got
         want = IT.SPAN_IMPL.get(q)
         ok = want == got
